@@ -527,6 +527,46 @@ PATH_SPELLINGS = ["nodes.json", "./nodes.json", "sub/nodes.json", "sub/../nodes.
                   "rég/nœds.json", "nodes.json ", ".hidden", "a/b/c/d/e/nodes.json", "nodes", "-nodes.json", "file:nodes.json"]
 
 
+async def gateway_roundtrip_case(ctx, nodes: dict, workdir: str, extra: dict, index: int) -> None:
+    """The round trip the way an application gets it: a Gateway with a persistence file (and, if the Config has options this
+    harness does not know, with those set to non-default values) is left - the final save writes the registry - and a
+    second Gateway configured the same way is entered - the file is loaded.  Whatever an option does to the file's form,
+    the registry comes back."""
+    from aiomysensors.gateway import Config, Gateway
+
+    from ..harness import ScriptedTransport
+
+    path = os.path.join(workdir, f"gw-roundtrip-{index}.json")
+    if os.path.exists(path):
+        os.unlink(path)
+    case = {"origin": {"kind": "gateway-roundtrip", "config_extra": extra, "index": index}, "registry": snap(nodes)}
+    before = typed(snap(nodes))
+    ctx.case(("gw-roundtrip", index, repr(sorted(extra.items())), json.dumps(snap(nodes), sort_keys=True, default=str)), sample=None)
+
+    def make() -> "Gateway":
+        return Gateway(ScriptedTransport(), Config(persistence_file=path, **extra))
+
+    first = make()
+    try:
+        async with first:
+            first.nodes.update(nodes)
+    except Exception as exc:  # noqa: BLE001
+        ctx.violation("save-raises", f"leaving a gateway context (options {extra}) raised {type(exc).__name__}: {exc!s:.100}", case)
+        return
+    ctx.clause("gateway-roundtrip")
+    second = make()
+    try:
+        async with second:
+            loaded = typed(snap(second.nodes))
+    except Exception as exc:  # noqa: BLE001
+        ctx.violation("saved-file-rejected-by-load", f"a second gateway (options {extra}) cannot enter on the file the first one "
+                                                     f"left: {type(exc).__name__}: {exc!s:.140}", case)
+        return
+    diff = first_difference(before, loaded)
+    if diff:
+        ctx.violation("roundtrip-differs", f"gateway round trip with options {extra}: registry differs at {diff}", case)
+
+
 def constructed(rng):
     from aiomysensors.model.node import Child, Node
 
@@ -603,6 +643,19 @@ def run(ctx) -> None:
                 queued_saves_case(ctx, constructed(rng), workdir, i, n_saves, cancel)
             for i in range(ctx.pick(80, 4000) // ctx.shard_count + 2):
                 arun(loosely_typed_case(ctx, loosely_typed_registry(rng), workdir, i))
+            from ..harness import unknown_options
+
+            settings = [{}] + unknown_options()
+            ctx.obs("unknown-config-options", len(settings) - 1)
+            for i in range(ctx.pick(40, 1200) // ctx.shard_count + 2):
+                for extra in settings:
+                    nodes = constructed(rng)
+                    if i % 4 == 0:  # the empty-string / empty-collection corner: values "", descriptions "", versions ""
+                        from aiomysensors.model.node import Child, Node
+
+                        nodes[3] = Node(3, 17, "", children={0: Child(0, 6, description="", values={47: "", 0: "0"}),
+                                                                   1: Child(1, 0)}, sketch_name="", sketch_version="")
+                    arun(gateway_roundtrip_case(ctx, nodes, workdir, extra, i))
             for i, spelling in enumerate(PATH_SPELLINGS):
                 if ctx.mine(i):
                     nodes = constructed(rng)
